@@ -52,27 +52,40 @@ def _roles(ck, fa):
         elif flags == {"False"}:
             r["oloops"].append(n)
     pl = r["ploops"][0].ast if len(r["ploops"]) == 1 else None
-    r["PIDX"] = None
-    r["PK"] = r["PV"] = None
+    r["PIDX"], r["PK"], r["PV"] = _loop_vars(pl) if pl is not None else (None, None, None)
+    # the loop(s) that walk the parent's entries: the one that copies them and, when the work is split over two
+    # passes, any other loop over the same listing reached under the same conditions
+    r["parent_passes"] = []
     if pl is not None:
-        it = pl.iter
-        if isinstance(it, ast.Call) and A.call_attr(it) == "items" and isinstance(A.call_recv(it), ast.Name):
-            r["PIDX"] = A.call_recv(it).id
-        if isinstance(pl.target, ast.Tuple) and len(pl.target.elts) == 2:
-            r["PK"], r["PV"] = A.norm(pl.target.elts[0]), A.norm(pl.target.elts[1])
-        elif isinstance(pl.target, ast.Name):
-            # `for k in parent_index:` / `.keys()`: the entry is parent_index[k]
-            if isinstance(it, ast.Call) and A.call_attr(it) == "keys" and not it.args:
-                it = A.call_recv(it)
-            if isinstance(it, ast.Name):
-                r["PIDX"] = it.id
-                r["PK"], r["PV"] = pl.target.id, "%s[%s]" % (it.id, pl.target.id)
+        head = r["ploops"][0]
+        it, cond = fa.xnorm(pl.iter, head.id), fa.conditions(pl)
+        for n in _for_nodes(fa):
+            if n.ast is pl or (fa.xnorm(n.ast.iter, n.id) == it and fa.conditions(n.ast) == cond and not fa.inside(n.ast, pl)):
+                r["parent_passes"].append(n)
     r["PDS"] = None
-    if pl is not None:
-        for c in A.calls_in(pl):
-            if A.call_attr(c) == "reference" and c.args and isinstance(c.args[0], ast.Name):
+    for n in r["parent_passes"]:
+        for c in A.calls_in(n.ast):
+            if A.call_attr(c) == "reference" and c.args and isinstance(c.args[0], ast.Name) and r["PDS"] is None:
                 r["PDS"] = c.args[0].id
     return r
+
+
+def _loop_vars(loop):
+    """(name of the mapping a loop walks, text of the key of the entry at hand, text of the entry) for
+    `for k, v in m.items()` / `for k in m` / `for k in m.keys()`; (None, None, None) for another shape."""
+    it = loop.iter
+    if isinstance(loop.target, ast.Tuple) and len(loop.target.elts) == 2:
+        idx = A.call_recv(it).id if isinstance(it, ast.Call) and A.call_attr(it) == "items" and isinstance(A.call_recv(it), ast.Name) else None
+        return idx, A.norm(loop.target.elts[0]), A.norm(loop.target.elts[1])
+    if isinstance(loop.target, ast.Name):
+        # `for k in parent_index:` / `.keys()`: the entry is parent_index[k]
+        if isinstance(it, ast.Call) and A.call_attr(it) == "keys" and not it.args:
+            it = A.call_recv(it)
+        if isinstance(it, ast.Name):
+            return it.id, loop.target.id, "%s[%s]" % (it.id, loop.target.id)
+    if isinstance(it, ast.Call) and A.call_attr(it) == "items" and isinstance(A.call_recv(it), ast.Name):
+        return A.call_recv(it).id, None, None
+    return None, None, None
 
 
 def _pol(lits, *texts):
@@ -207,6 +220,8 @@ def _parent_reads(fa, MP, use=None):
                 tested = h if tested is None else (tested & h)
     if use is not None:
         for (_t, lits, _tr) in PM.walk(fa, [use]):
+            if _there(lits, MP) is False:
+                continue  # a path without a parent says nothing about what a parent has
             (i, h) = _facts(fa, lits, MP, _tr)
             if i is False:
                 tested = h if tested is None else (tested & h)
@@ -217,7 +232,7 @@ def check_protocol(ck, R):
     ck.rule(R, "merge-parent protocol: for every concrete Partition class other than the stored form, the 'remember "
                "where it was written' test in store() succeeds on its declared attributes, the 'usable as parent' test "
                "can succeed, and the attributes written are the ones later read from a parent", 5)
-    fa = FA(ck, PM.STORE)
+    fa = PM.view(ck, PM.STORE, "branches")
     ro = _roles(ck, fa)
     MP, INDEX = ro["MP"], ro["INDEX"]
     writes = PM.store_writes_on_obj(fa)
@@ -356,7 +371,7 @@ def check_overlay(ck, R):
     ck.rule(R, "overlay order: the parent's index entries are copied (marked from_parent) before the partition's own "
                "keys are layered on top, own keys come from list_keys(_include_merge_parent=False), and both go into the "
                "one index that is serialised", 6)
-    fa = FA(ck, PM.STORE)
+    fa = PM.view(ck, PM.STORE, "branches")
     cfg = fa.cfg
     ro = _roles(ck, fa)
     MP, INDEX, PV, PDS, PIDX, fields = ro["MP"], ro["INDEX"], ro["PV"], ro["PDS"], ro["PIDX"], ro["fields"]
@@ -394,9 +409,21 @@ def check_overlay(ck, R):
             cfg.node(i).ast is None or fa.inside(cfg.node(i).ast, pl.ast) for i in live)
         ck.ob(R, fa.key(pl.ast, "every-parent-entry"), okall, "every parent entry is copied into the merged index" if okall else
               "an iteration of the parent loop can skip `index[k] = ...` (continue / early exit): such parent-only keys disappear from the stored child", fa.where(pl.ast))
-    refs = [c for c in A.calls_in(pl.ast) if A.call_attr(c) == "reference"]
-    okr = bool(refs) and PDS is not None and PIDX is not None and all(
-        len(c.args) == 3 and A.norm(c.args[0]) == PDS and [fa.xnorm(a, fa.nodes(c)[0]) for a in c.args[1:]] == ["%s.content_key" % PV] * 2 for c in refs)
+    refs = []
+    okr = PDS is not None and PIDX is not None
+    for n in ro["parent_passes"]:
+        (_idx, _k, v_) = _loop_vars(n.ast)
+        for c in A.calls_in(n.ast):
+            if A.call_attr(c) != "reference":
+                continue
+            refs.append(c)
+            okr = okr and v_ is not None and len(c.args) == 3 and A.norm(c.args[0]) == PDS and \
+                [fa.xnorm(a, fa.nodes(c)[0]) for a in c.args[1:]] == ["%s.content_key" % v_] * 2
+            # every entry is referenced: no iteration starts the next one or leaves the loop before the call
+            starts = [d for (d, l) in cfg.succ[n.id] if l == "T"]
+            live = cfg.reach(starts, removed=fa.nodes(c), edge_ok=lambda a, b, l: l != "exc")
+            okr = okr and n.id not in live and cfg.exit not in live
+    okr = okr and bool(refs)
     if okr:
         # the data source named is the parent's own: on every path into the loop body, the index iterated and the
         # data source referenced were read off the parent object as a pair (stored form: its index and its data
@@ -717,7 +744,7 @@ def _shape_get(ck, R, cls):
     else an error — decided per exit of the function on the literals of the paths that reach it."""
     m = cls.methods.get("get")
     ck.need(m is not None, "%s.get not found" % cls.qual)
-    fa = FA(ck, m)
+    fa = PM.view(ck, m, "branches")
     K = _param(ck, fa, 1, "the key")
     own_re = re.compile(r"^%s in self\.(\w+)(\.keys\(\))?$" % re.escape(K))
     paths, falls = _exit_paths(fa)
@@ -771,7 +798,7 @@ def _shape_list(ck, R, cls):
     sorted(own keys) otherwise — decided per return on the key sources of the returned value."""
     m = cls.methods.get("list_keys")
     ck.need(m is not None, "%s.list_keys not found" % cls.qual)
-    fa = FA(ck, m)
+    fa = PM.view(ck, m, "collections")
     INC = _param(ck, fa, 1, "_include_merge_parent")
     paths, falls = _exit_paths(fa)
     why = []
@@ -861,7 +888,7 @@ def _not_inherited(res, flt):
 def _stored_form_filter(ck, R):
     """PicklePartition.list_keys(include): every key of the index when include is set, the keys whose entry is
     not marked from_parent otherwise; sorted."""
-    lk = FA(ck, PM.PICKLE_PARTITION + ".list_keys")
+    lk = PM.view(ck, PM.PICKLE_PARTITION + ".list_keys", "collections")
     INC = _param(ck, lk, 1, "_include_merge_parent")
     paths, falls = _exit_paths(lk)
     ok = bool(paths) and not falls
@@ -996,9 +1023,9 @@ def check_parent_objects_brought_over(ck, R):
         ok = False
         why = "does nothing with the object"
         for c in reads:
-            conds = fa.conditions(fa.stmt_of(c))
-            if conds is None:
-                continue
+            # the conditions under which the read is reached, per path (a verdict kept in a local is read through the
+            # value the path gave it)
+            conds = [[(l.text, l.pos) for l in lits] for (_t, lits, _tr) in PM.walk(fa, fa.nodes(fa.stmt_of(c))[:1])]
             def excused(txt, pol):
                 same = ("%s is self" % src) in txt or ("self is %s" % src) in txt
                 there = "exists" in txt
@@ -1140,7 +1167,7 @@ def check_call_state_travels_with_object(ck, R):
               "nested in partitions), so the next call replaces the value before this one has used it and one result is written with another "
               "result's data" % (bad[0][0].qual, bad[0][2]), bad[0][0].where(bad[0][1]) if bad else A.loc(cls, cls.node))
     # (b) the serialised index goes from store() to the writer on the partition being stored
-    fa = FA(ck, PM.STORE)
+    fa = PM.view(ck, PM.STORE, "branches")
     OBJ = "obj"
     ck.need(OBJ in fa.fi.params, "%s: parameter `obj` (the partition being stored) not found" % fa.qual)
     sers = fa.calls("_serialize_index")
